@@ -453,10 +453,21 @@ def _walk(node: Any, out: set[str], ctx: dict[str, Any]) -> None:  # noqa: C901,
         if node.get("else") is not None:
             out.add("for-else")
     elif k in ("break", "continue", "assert", "raise", "with", "match", "yield", "aug"):
+        if k == "with":
+            body = node["body"]
+            for pos in range(1, len(body)):
+                if body[pos]["k"] == "try" and all(b["k"] == "assign" for b in body[:pos]) and any(
+                        x["k"] in ("if", "for", "while") for h in body[pos]["handlers"] for x in h["body"]):
+                    out.add("nested-try-after-simple-stmts")
         out.add({"aug": "augassign"}.get(k, k))
         if k == "raise" and node.get("exc") is None:
             out.add("reraise")
     elif k == "try":
+        body = node["body"]
+        for pos in range(1, len(body)):
+            if body[pos]["k"] == "try" and all(b["k"] == "assign" for b in body[:pos]) and any(
+                    x["k"] in ("if", "for", "while") for h in body[pos]["handlers"] for x in h["body"]):
+                out.add("nested-try-after-simple-stmts")
         if node["handlers"]:
             out.add("try-except")
             if any(len(h["exc"]) > 1 for h in node["handlers"]):
@@ -1422,8 +1433,69 @@ class _Gen:
             s["else"] = self.block(env.child(), depth + 1, 2)
         return s
 
+    def risky_stmt(self, env: _Env) -> tuple[dict[str, Any], str]:
+        """A straight-line statement that raises for some inputs, and the exception it raises."""
+        opts: list[tuple[str, str]] = []
+        ints, lists, dicts, strs = env.of("int"), env.of("list"), env.of("dict"), env.of("str")
+        if ints:
+            opts += [("div", "ZeroDivisionError")] * 2
+        if lists:
+            opts += [("index", "IndexError")] * 2
+        if dicts:
+            opts.append(("key", "KeyError"))
+        if strs:
+            opts.append(("int", "ValueError"))
+        if not opts:
+            return {"k": "assert", "c": self.compare(env, 1)}, "AssertionError"
+        kind, exc = self.pick(opts)
+        if kind == "div":
+            value: dict[str, Any] = {"k": "bin", "op": self.pick(["//", "%"]), "l": self.leaf(env, "int"), "r": N(self.pick(ints))}
+        elif kind == "index":
+            value = {"k": "sub", "o": N(self.pick(lists)), "i": self.leaf(env, "int")}
+        elif kind == "key":
+            value = {"k": "sub", "o": N(self.pick(dicts)), "i": self.leaf(env, "str")}
+        else:
+            value = CALL("int", N(self.pick(strs)))
+        return {"k": "assign", "t": N(self.bind(env, "int")), "v": value}, exc
+
+    def guarded_prefix_shape(self, env: _Env, depth: int) -> list[dict[str, Any]]:
+        """Body of a ``try``/``with``: straight-line statements *directly* followed by a nested ``try`` whose handler branches.
+
+        (Two exception-table regions then start in one basic block: the enclosing one and, after the simple statements,
+        the nested one -- a shape in which the handler of the nested ``try`` is reachable only through the second region.)
+        The nested body is a statement that raises for some inputs (division, subscript, ``int(str)``), the handler catches
+        that exception and contains an ``if`` or a ``for``.
+        """
+        out: list[dict[str, Any]] = []
+        for _ in range(1 + self.i(2)):
+            t = self.pick(["int", "int", "str", "bool"])
+            value = self.leaf(env, t)
+            out.append({"k": "assign", "t": N(self.bind(env, t)), "v": value})
+        inner_env = env.child()
+        risky, exc = self.risky_stmt(inner_env)
+        body = [risky]
+        if self.chance(40):
+            body.append(self.assign(inner_env))
+        h_env = env.child(handler=True)
+        names = [exc] if self.chance(60) else ([exc, self.pick(EXC_NAMES[:6])] if self.chance(50) else ["Exception"])
+        handler: dict[str, Any] = {"exc": list(dict.fromkeys(names)), "as": self.fresh("e") if self.chance(30) else None}
+        saved = self.budget
+        self.budget = min(self.budget, 3)
+        branchy = self.if_stmt(h_env, depth + 1) if self.chance(65) or not self.has("for") else self.for_stmt(h_env, depth + 1)
+        self.budget = saved - 5
+        handler["body"] = [branchy]
+        out.append({"k": "try", "body": body, "handlers": [handler], "else": None, "final": None})
+        if self.chance(40):
+            out.append(self.assign(env))
+        return out
+
+    def guarded_body(self, env: _Env, depth: int) -> list[dict[str, Any]]:
+        if self.has("try") and self.has("if") and depth + 2 <= self.max_depth and self.chance(30):
+            return self.guarded_prefix_shape(env.child(), depth + 1)
+        return self.block(env.child(), depth + 1, 3)
+
     def try_stmt(self, env: _Env, depth: int) -> dict[str, Any]:
-        s: dict[str, Any] = {"k": "try", "body": self.block(env.child(), depth + 1, 3), "handlers": [], "else": None,
+        s: dict[str, Any] = {"k": "try", "body": self.guarded_body(env, depth), "handlers": [], "else": None,
                              "final": None}
         final = self.chance(35)
         n_handlers = self.pick([1, 1, 2]) if not final or self.chance(70) else 0
@@ -1455,7 +1527,7 @@ class _Gen:
         s: dict[str, Any] = {"k": "with", "ctx": CALL("_Ctx", flag), "as": None}
         if self.chance(50):
             s["as"] = self.fresh("w")
-        s["body"] = self.block(env.child(), depth + 1, 3)
+        s["body"] = self.guarded_body(env, depth)
         return s
 
     def match_stmt(self, env: _Env, depth: int) -> dict[str, Any]:
